@@ -25,6 +25,8 @@ def own_deadlock_sites(ctx, rule, fns=None):
         inst = facts.mono_instance(f.id)
         IN = maybe_init(f)
         VF = variant_facts(f)
+        import pathsim
+        PS = pathsim.PathSim(f)
         ctx.touch(f)
         ordinal = {}
         sites = [(bb, t) for bb, t in f.calls()] + [(bb, t) for bb, t in f.drops()]
@@ -57,6 +59,14 @@ def own_deadlock_sites(ctx, rule, fns=None):
                     # enum known to be in variant v here: only that variant's payload counts
                     pts = variant_payload_types(facts, ty, v)
                     if pts is not None and not any(holds_writer_types(p) for p in pts):
+                        continue
+                # path-sensitive: on every variant-consistent path reaching this site the enum is in a
+                # variant whose payload owns no writer (e.g. the return place already holds `Err(..)`)
+                sts = PS.states_before_term(bb)
+                vs = {s_.variant((l,)) for s_ in sts}
+                if sts and None not in vs:
+                    pay = [variant_payload_types(facts, ty, v_) for v_ in vs]
+                    if all(p is not None and not any(holds_writer_types(x) for x in p) for p in pay):
                         continue
                 owners.append(l)
             cn = short(call_name(t))
@@ -568,3 +578,79 @@ def writer_drop_waits_turn(ctx, rule):
         ctx.ob(rule, "%s|send-after-own-turn" % f.id,
                "a writer releases its successor only after its own turn has come (its predecessor finished), even when it is dropped without ever writing",
                ok, f.loc(bb), None if ok else "Drop sends the successor's token without waiting for this writer's trigger: dropping an unused writer (e.g. `drop(rq.into_writer())`, or the parser abandoning a writer when new_request fails) lets a later response (or the 417/400 of a rejected request) overtake an earlier pending one")
+
+
+
+def framing_lookup_closures(facts, nr):
+    """{header literal: closure id} for the equiv("..") lookups of new_request"""
+    lookups = {}
+    for cl in facts.find_fns(r"^request::new_request::\{closure"):
+        for bb, t in cl.calls():
+            if call_matches(t, r"common::HeaderField::equiv$"):
+                lit = [c for c in arg_consts(cl, t) if isinstance(c, str)]
+                if lit:
+                    lookups.setdefault(lit[0], []).append(cl.id)
+    return lookups
+
+
+def te_presence_tests(facts, nr, lookups):
+    """[(bb, present_edge, absent_edge)] for the tests whether a Transfer-Encoding header exists"""
+    out = []
+    te_clos = set(lookups.get("Transfer-Encoding", []))
+    for bb, t in nr.calls():
+        if call_matches(t, r"Option::<T>::is_some$|Option::<T>::is_none$") and t.get("target") is not None:
+            o = nr.origin(t["args"][0])
+            if any(x[0] == "agg" and x[1] in te_clos for x in origin_walk(o)):
+                bs = bool_switch(nr, t["target"])
+                if bs and bs[1] != bs[2]:
+                    pres, absent = (bs[1], bs[2]) if t["name"] == "is_some" else (bs[2], bs[1])
+                    out.append((t["target"], pres, absent))
+    for bb in sorted(nr.live_blocks()):
+        sw = switch_on_discr(nr, bb)
+        if sw and sw[0].get("adt") == "std::option::Option" and not nr.blocks[bb]["cleanup"]:
+            o = nr.origin_place(sw[0]["pl"])
+            if any(x[0] == "agg" and x[1] in te_clos for x in origin_walk(o)):
+                rv, m, otherwise, rest = sw
+                pres = m.get("Some", otherwise if "Some" in rest else None)
+                absent = m.get("None", otherwise if "None" in rest else None)
+                if pres is not None and absent is not None and pres != absent:
+                    out.append((bb, pres, absent))
+    return out
+
+
+def content_length_local(facts, nr):
+    cons = [(bb, s) for g, bb, s in facts.constructions(REQ) if g.id == nr.id]
+    if not cons:
+        raise CheckerError("Request construction not found in new_request")
+    r = cons[0][1]["rhs"]
+    o = nr.origin(r["ops"][r["fields"].index("body_length")])
+    ls = [x[1] for x in origin_walk(o) if x[0] == "local"]
+    if not ls:
+        raise CheckerError("body_length is not fed by a local")
+    return ls[0]
+
+
+def te_precedence(ctx, rule, key_suffix):
+    """Transfer-Encoding takes precedence: the Content-Length that decides the framing (and is reported as
+    body_length) can be a header-derived value only on paths where no Transfer-Encoding header exists."""
+    facts = ctx.facts
+    nr = facts.fn("request::new_request")
+    lookups = framing_lookup_closures(facts, nr)
+    tests = te_presence_tests(facts, nr, lookups)
+    CL = content_length_local(facts, nr)
+    defs = [d for d in nr.defs().get(CL, []) if d[0] in ("assign", "call")]
+    ok = bool(tests) and bool(defs)
+    detail = []
+    for d in defs:
+        bb = d[1]
+        if d[0] == "assign":
+            o = nr.origin(d[3]["op"]) if d[3]["rv"] == "use" else (("agg", d[3].get("adt"), [], None, d[3].get("variant")) if d[3]["rv"] == "agg" else ("unknown",))
+            if o[0] == "agg" and o[4] == "None":
+                continue
+        fine = any(nr.dominates(absent, bb, unwind=False) for _, pres, absent in tests)
+        if not fine:
+            ok = False
+            detail.append("a header-derived Content-Length is assigned at %s although a Transfer-Encoding header may be present" % nr.loc(bb))
+    ctx.ob(rule, "%s|%s" % (nr.id, key_suffix), "a Transfer-Encoding header takes precedence: the Content-Length used for framing (and reported as body_length) comes from a header only when there is no Transfer-Encoding",
+           ok, "%s:%d" % (nr.file, nr.line), "; ".join(detail) or None)
+    return lookups, tests, CL
